@@ -9,6 +9,9 @@ CONSTANTS
  DevDefineFirstOnly = FALSE
  DevPairsUntyped = FALSE
  DevTableMacrosKept = FALSE
+ DevDefineLazyCond = FALSE
+ DevDefineBlockDropped = FALSE
+ DevDefineInactiveKept = FALSE
  DevOverrideExplicit = FALSE
  DevEpsHalf = FALSE
  DevSigmaInverted = FALSE
